@@ -247,3 +247,100 @@ pub fn gen_c04(seed: u64, tier: Tier) -> CaseSet {
     tally.into_stats(&mut stats);
     finish("pool", 4, cases, descr, sigs, stats)
 }
+
+// ---------------------------------------------------------------------------------------------
+// C06: safe-to-notar / safe-to-skip.  One slot with competing blocks whose parent certificate,
+// block registrations, other validators' votes and the own vote arrive in every relative order.
+fn quorum_subset(rng: &mut Rng, stakes: &[u64], num: u128, den: u128) -> Vec<u64> {
+    let n = stakes.len() as u64;
+    let mut sub: Vec<u64> = (0..n).collect();
+    rng.shuffle(&mut sub);
+    let mut t: u128 = 0;
+    let mut out = Vec::new();
+    for x in sub {
+        if t * den >= total(stakes) * num { break; }
+        t += stakes[x as usize] as u128;
+        out.push(x);
+    }
+    out.sort();
+    out
+}
+
+pub fn c06_scenario(rng: &mut Rng, stakes: &[u64], own: u64) -> Vec<Op> {
+    let n = stakes.len() as u64;
+    let s = rng.range(2, 6);
+    let parent = (s - 1, (s - 1) * 10 + 1);
+    let nblocks = rng.range(1, 3);
+    let blocks: Vec<(u64, u64)> = (0..nblocks).map(|k| (s, s * 10 + k + 1)).collect();
+    // the trigger set: every element is one group of operations; groups are shuffled
+    let mut groups: Vec<Vec<Op>> = Vec::new();
+    // parent certificate: by votes or received (Notar / NotarFb / FastFinal), sometimes absent
+    match rng.below(7) {
+        0 => {}
+        1 | 2 => { let q = quorum_subset(rng, stakes, 3, 5); groups.push(q.iter().map(|&v| Op::Vote { slot: parent.0, kind: VK::Notar, hash: parent.1, signer: v }).collect()); }
+        3 => { let q = quorum_subset(rng, stakes, 3, 5); groups.push(vec![Op::Cert { slot: parent.0, kind: CK::Notar, hash: parent.1, s1: q, s2: vec![] }]); }
+        4 => { let q = quorum_subset(rng, stakes, 3, 5); let k = rng.range(0, q.len() as u64) as usize; groups.push(vec![Op::Cert { slot: parent.0, kind: CK::NotarFb, hash: parent.1, s1: q[..k].to_vec(), s2: q[k..].to_vec() }]); }
+        5 => { let q = quorum_subset(rng, stakes, 4, 5); groups.push(vec![Op::Cert { slot: parent.0, kind: CK::FastFinal, hash: parent.1, s1: q, s2: vec![] }]); }
+        _ => { let q = quorum_subset(rng, stakes, 3, 5); let k = rng.range(0, q.len() as u64) as usize;
+               let mut g: Vec<Op> = q[..k].iter().map(|&v| Op::Vote { slot: parent.0, kind: VK::Notar, hash: parent.1, signer: v }).collect();
+               g.extend(q[k..].iter().map(|&v| Op::Vote { slot: parent.0, kind: VK::NotarFb, hash: parent.1, signer: v }));
+               groups.push(g); }
+    }
+    // block registrations (some blocks stay unknown -> repair request instead of the signal)
+    for b in &blocks {
+        if rng.chance(5, 6) {
+            let p = if rng.chance(5, 6) { parent } else { (s - 1, (s - 1) * 10 + 2) };
+            groups.push(vec![Op::Block { b: *b, p }]);
+        }
+    }
+    // votes of the other validators: each picks notar(some block) / skip / nothing
+    let mut others: Vec<u64> = (0..n).filter(|v| *v != own).collect();
+    rng.shuffle(&mut others);
+    for v in others {
+        let r = rng.below(10);
+        let op = if r < 5 { Op::Vote { slot: s, kind: VK::Notar, hash: rng.pick(&blocks).1, signer: v } }
+                 else if r < 8 { Op::Vote { slot: s, kind: VK::Skip, hash: 0, signer: v } }
+                 else { continue };
+        let mut g = vec![op];
+        if rng.chance(1, 6) { g.push(Op::Vote { slot: s, kind: VK::SkipFb, hash: 0, signer: v }); }
+        if rng.chance(1, 8) { g.push(Op::Vote { slot: s, kind: VK::NotarFb, hash: rng.pick(&blocks).1, signer: v }); }
+        groups.push(g);
+    }
+    // own vote
+    match rng.below(6) {
+        0 => {}
+        1 | 2 => groups.push(vec![Op::Vote { slot: s, kind: VK::Skip, hash: 0, signer: own }]),
+        _ => groups.push(vec![Op::Vote { slot: s, kind: VK::Notar, hash: rng.pick(&blocks).1, signer: own }]),
+    }
+    rng.shuffle(&mut groups);
+    groups.into_iter().flatten().collect()
+}
+
+pub fn gen_c06(seed: u64, tier: Tier) -> CaseSet {
+    let mut rng = Rng::new(seed ^ 0xC06);
+    let mut ring = KeyRing::new();
+    let ncases = match tier { Tier::Quick => 600, Tier::Thorough => 12000 };
+    let (mut cases, mut descr, mut sigs) = (Vec::new(), Vec::new(), Vec::new());
+    let mut stats = Stats::default();
+    let mut tally = Tally::default();
+    let mut seen = HashSet::new();
+    for cid in 0..ncases {
+        let (stakes, fam) = stake_family(&mut rng);
+        *tally.families.entry(fam).or_default() += 1;
+        let own = rng.below(stakes.len() as u64);
+        let ops = c06_scenario(&mut rng, &stakes, own);
+        let keys = ring.get(stakes.len());
+        let (txt, outs) = pool::run_case(keys, cid, &stakes, own, &ops);
+        record(cid, &outs, "pool", &mut sigs, &mut stats);
+        stats.evaluations += 1;
+        let nontrivial = outs.iter().any(|o| o.events.iter().any(|e| matches!(e, alpenglow::consensus::PoolEvent::SafeToNotar(_) | alpenglow::consensus::PoolEvent::SafeToSkip(_))));
+        if nontrivial && seen.insert(txt.clone()) { stats.distinct_nontrivial += 1; }
+        if stats.samples.len() < 2 && nontrivial { stats.samples.push(txt.chars().take(1500).collect()); }
+        descr.push(format!("case {}: stakes {:?} ({}), own {}, {} ops", cid, stakes, fam, own, outs.len()));
+        tally.add(&outs);
+        cases.push(txt);
+    }
+    stats.rule = "one slot with 1-3 competing blocks: parent certificate (by notar votes, by mixed notar/notar-fallback votes, or received Notar / NotarFallback / FastFinal certificate, or absent), block registrations (some missing, some with an uncertified parent), other validators' notar/skip/fallback votes and the own vote, shuffled as groups so that each can arrive last; non-trivial = at least one SafeToNotar/SafeToSkip raised; distinct by full trace".into();
+    tally.into_stats(&mut stats);
+    finish("pool", 6, cases, descr, sigs, stats)
+}
